@@ -48,6 +48,28 @@ Proof.
 Qed.
 Print Assumptions C09_cadence.
 
+(* A stage (of a config file, or any trigger that stops dur after its first evaluation) of constant
+   value k requests at most k (1 + dur / interval) iterations: the count bound the harness applies
+   to the iterations tagged with the stage's parameter (predicate stage_count_ok). *)
+Theorem C09_stage_bound : forall k t0 interval dur evs got slack,
+  0 < interval -> 0 <= dur -> 0 <= k -> 0 <= slack -> ticks_not_early t0 interval 1 evs ->
+  Forall (fun t => t <= t0 + dur) (eval_times (worker_actions (fun _ => k) t0 evs)) ->
+  got <= zsum (requests (worker_actions (fun _ => k) t0 evs)) + slack ->
+  zsum (requests (worker_actions (fun _ => k) t0 evs)) <= k * (1 + dur / interval) /\
+  stage_count_ok k interval dur got slack = true.
+Proof.
+  intros k t0 interval dur evs got slack Hi Hd Hk Hs Hn Hall Hg. split.
+  - exact (stage_bound k t0 interval dur evs Hi Hd Hk Hn Hall).
+  - exact (stage_count_sound k t0 interval dur evs got slack Hi Hd Hk Hs Hn Hall Hg).
+Qed.
+Print Assumptions C09_stage_bound.
+
+Example C09_stage_bound_example :
+  ticks_not_early 0 400 1 [TickDelivered 410; CtxDone] /\
+  Forall (fun t => t <= 0 + 680) (eval_times (worker_actions (fun _ => 3) 0 [TickDelivered 410; CtxDone])) /\
+  stage_count_ok 3 400 680 6 0 = true /\ stage_count_ok 3 400 680 9 1 = false.
+Proof. cbn. repeat split; try lia; repeat constructor; lia. Qed.
+
 Example C09_example :
   worker_actions (fun k => Z.of_nat k * 10) 1000 [TickDelivered 1100; TickDelivered 1210; CtxDone; TickDelivered 1300]
   = [AEval 1000 0; ARequest 0; AEval 1100 10; ARequest 10; AEval 1210 20; ARequest 20].
